@@ -30,9 +30,6 @@ void prim_case(size_t n, bool fixed_grid = false) {
     auto is = IdentityOperator{} * s;
     std::string k = "w" + W(w) + "/";
     if (!shape_ok(ds, n) || !shape_ok(xs, n) || !shape_ok(is, n)) E.fail(k + "shape", "structure", "result shape inconsistent");
-    if (!(ds.getSupport().getStartIndex() == s.getSupport().getStartIndex() && ds.getSupport().getEndIndex() == s.getSupport().getEndIndex() &&
-          xs.getSupport().getStartIndex() == s.getSupport().getStartIndex() && xs.getSupport().getEndIndex() == s.getSupport().getEndIndex()))
-      E.fail(k + "window", "structure", "operator result is not supported on the operand's window");
     for (size_t gi = 0; gi + 1 < n; gi++) {
       // reference: operand piece in the origin monomial basis, differentiated / multiplied there
       Poly p = piece(s, g, gi), dp = p, xp = p;
